@@ -3,6 +3,7 @@ package work
 import (
 	"bytes"
 	"fmt"
+	"math/rand/v2"
 	"reflect"
 	"time"
 	"unsafe"
@@ -181,6 +182,9 @@ func codecLaws(c *core.Ctx, tc *tcase, st subType, codec plenccodec.Codec, v ref
 			rec.Violation("read-length", fmt.Sprintf("Read consumed %d bytes of a %d byte body (+%d trailing) %s\n  bytes %s", n, len(body), len(trail), desc(), hexHead(data)), nil)
 			return
 		}
+		if trail == nil {
+			readIntoHeld(c, tc, st, codec, av, body, wt, desc)
+		}
 		want := tc.cfg.Normalise(av, st.opt, false)
 		invalidNull := st.t.PkgPath() == model.NullIntT.PkgPath() && !av.FieldByName("Valid").Bool()
 		if d := model.Diff(want, target.Elem(), "$"); d != "" && !invalidNull && !(av.Kind() == reflect.Ptr && av.IsNil()) && !(av.Kind() == reflect.Map && av.IsNil()) {
@@ -188,6 +192,73 @@ func codecLaws(c *core.Ctx, tc *tcase, st subType, codec plenccodec.Codec, v ref
 			return
 		}
 	}
+}
+
+// readIntoHeld: reading a body consumes exactly its length also when the target already holds
+// something: an emptied slice with less, exactly enough or more capacity than the elements need
+// (then the result is the value, as for a new target), or an arbitrary earlier value (round 12: k05)
+func readIntoHeld(c *core.Ctx, tc *tcase, st subType, codec plenccodec.Codec, av reflect.Value, body []byte, wt plenccore.WireType, desc func() string) {
+	rec := c.Rec
+	if len(body) == 0 || (av.Kind() == reflect.Ptr && av.IsNil()) {
+		return
+	}
+	var targets []reflect.Value
+	var sameAsNew []bool
+	if st.t.Kind() == reflect.Slice && av.Len() > 0 {
+		n := av.Len()
+		for _, cp := range []int{1, n / 2, n - 1, n, n + 1, 2*n + 3} {
+			if cp < 1 {
+				continue
+			}
+			t := reflect.New(st.t)
+			t.Elem().Set(reflect.MakeSlice(st.t, 0, cp))
+			targets, sameAsNew = append(targets, t), append(sameAsNew, true)
+			// ... and the same capacity still holding stale elements beyond its length
+			t2 := reflect.New(st.t)
+			full := reflect.MakeSlice(st.t, cp, cp)
+			stale := model.DeepCopy(av) // (its own pointees: what a reader does with stale elements is C10's business, not the value's)
+			for i := 0; i < cp; i++ {
+				full.Index(i).Set(stale.Index(i % n))
+			}
+			t2.Elem().Set(full.Slice(0, 0))
+			targets, sameAsNew = append(targets, t2), append(sameAsNew, true)
+		}
+	}
+	r := rand.New(rand.NewPCG(core.Hash64(string(body)), 5))
+	for k := 0; k < 2; k++ {
+		t := reflect.New(st.t)
+		t.Elem().Set((&gen.VG{R: r, C: tc.cfg, Budget: 40}).Value(st.t, st.opt))
+		targets, sameAsNew = append(targets, t), append(sameAsNew, false)
+	}
+	want := tc.cfg.Normalise(av, st.opt, false)
+	for i, target := range targets {
+		held := model.Show(target.Elem())
+		var n int
+		var err error
+		if p := core.Guard(func() { n, err = codec.Read(body, target.UnsafePointer(), wt) }); p != "" {
+			rec.Violation("codec-panic", "Read into a target that holds something panicked "+desc()+"\n  bytes "+hexHead(body)+"\n  target held "+held+"\n"+p, nil)
+			return
+		}
+		rec.Eval(1)
+		rec.Count("reads_into_held_targets", 1)
+		if err != nil || n != len(body) {
+			rec.Violation("read-length", fmt.Sprintf("Read into a target that already holds something (cap %d) consumed %d bytes of a %d byte body (error %v) %s\n  bytes %s\n  target held %s", capOf(target.Elem()), n, len(body), err, desc(), hexHead(body), held), nil)
+			return
+		}
+		if sameAsNew[i] {
+			if d := model.Diff(want, target.Elem(), "$"); d != "" {
+				rec.Violation("read-value", fmt.Sprintf("Read into an emptied slice with capacity gives another value than into a new one: %s %s\n  bytes %s\n  got %s", d, desc(), hexHead(body), model.Show(target.Elem())), nil)
+				return
+			}
+		}
+	}
+}
+
+func capOf(v reflect.Value) int {
+	if v.Kind() == reflect.Slice {
+		return v.Cap()
+	}
+	return -1
 }
 
 func codecOmit(codec plenccodec.Codec, wp unsafe.Pointer) (o bool) {
@@ -523,7 +594,7 @@ func init() {
 	core.Register(&core.Prop{
 		ID:        "C05",
 		Technique: "online checker of the Codec laws on every codec reachable from generated types (direct Size/Append/Read calls with 0/1/2/5-byte tags) + structural walk of every Marshal output",
-		Rule: "for every sub-type (field, element, key, value, pointer target; with its tag option) of every generated type the codec plenc builds is called directly on boundary-biased values including omitted ones and the empty json.Number: Size==len(Append) without a tag and with tags of index 1,15,16,2047,2048,2^28; tagged = tag+len+body (one frame per element in the repeated form); Read(body [+trailing bytes]) consumes exactly the body and yields the value; every Marshal output is walked by the model's strict parser. " +
+		Rule: "for every sub-type (field, element, key, value, pointer target; with its tag option) of every generated type the codec plenc builds is called directly on boundary-biased values including omitted ones and the empty json.Number: Size==len(Append) without a tag and with tags of index 1,15,16,2047,2048,2^28; tagged = tag+len+body (one frame per element in the repeated form); Read(body [+trailing bytes]) consumes exactly the body and yields the value, also into emptied slices of every capacity around the element count (with and without stale elements) and into targets that hold an earlier value; every Marshal output is walked by the model's strict parser. " +
 			"after changing a value in place the same variable is marshalled again into the re-used buffer; every 23rd case: ten encodes that fail half-way (a JSON value of an unknown type inside a JSON map, array or struct field, written into the caller's buffer), each followed by the laws and the documented bytes for JSON maps, arrays and structs and maps around them on the same instance; every third case ends with 6 goroutines marshalling the case's values at once, each result compared with the call made alone. " +
 			"distinct = (sub-type, option, configuration, value-shape) hashes with a non-zero value",
 		Assume: []string{"calling convention for map codecs as used by StructCodec (map pointer for writing, address of the map variable for reading)", "model.Canon as the independent walker"},
